@@ -1,7 +1,7 @@
 import ast, z3
-from vf2.spec import *
-from vf2.idioms import is_call
-from c2.joint_degree import JD, JDS
+from vf.spec import *
+from vf.idioms import is_call
+from contracts.joint_degree import JD, JDS
 Edge, Name, Fn = Elem("Edge"), Elem("Name"), Elem("Fn")
 LInt, LEdge, LName, LFn = ListT(INT), ListT(Edge), ListT(Name), ListT(Fn)
 LLInt = ListT(LInt); ARR = ArrT(INT, INT)
@@ -11,7 +11,7 @@ BUILD = z3.Function("build", Fn.sort(), LInt.sort(), LEdge.sort())
 PERM = z3.Function("perm", LInt.sort(), LInt.sort(), z3.BoolSort())
 
 def build(reg):
-    import c2.joint_degree as J
+    import contracts.joint_degree as J
     if "colsum" not in reg.specfuns: reg.specfun("colsum", [("jds", JDS), ("c", INT), ("n", INT)], INT, base="0", rec="colsum(jds, c, n - 1) + jds[n - 1][c]")
     reg.type("Edge", Edge); reg.type("Name", Name)
     a, p, t = z3.Const("a_", IntArr), z3.Int("p_"), z3.Int("t_"); x, y = z3.Consts("x_ y_", LInt.sort()); f = z3.Const("f_", Fn.sort())
